@@ -281,11 +281,193 @@ func (o *Obl) discharged() bool {
 	return o.Status == "unsat"
 }
 
+// incremental decides many obligations of one VC in a single solver process
+// (E-matching only): facts are asserted in program order, each obligation is
+// a push / assert-negation / check-sat / pop.
+func (vc *VC) incremental(obls []*Obl, enabled map[string]bool, perCheckMs int, opts SolveOpts, stats *SolverStats) map[*Obl]string {
+	res, _ := vc.incrementalCores(obls, enabled, perCheckMs, opts, stats, false)
+	return res
+}
+
+// incrementalCores is incremental with the Houdini enable flags passed as
+// assumptions, so that every proof reports which candidates it used.
+func (vc *VC) incrementalCores(obls []*Obl, enabled map[string]bool, perCheckMs int, opts SolveOpts, stats *SolverStats, cores bool) (map[*Obl]string, map[*Obl][]string) {
+	res := map[*Obl]string{}
+	coreOf := map[*Obl][]string{}
+	retn := func() (map[*Obl]string, map[*Obl][]string) { return res, coreOf }
+	_ = retn
+	if len(obls) == 0 {
+		return res, coreOf
+	}
+	if len(vc.unsup) > 0 {
+		for _, o := range obls {
+			res[o] = "unsupported"
+		}
+		return res, coreOf
+	}
+	sorted := append([]*Obl(nil), obls...)
+	sort.SliceStable(sorted, func(i, j int) bool { return sorted[i].NFacts < sorted[j].NFacts })
+	var b bytes.Buffer
+	b.WriteString("(set-logic ALL)\n")
+	fmt.Fprintf(&b, "(set-option :timeout %d)\n", perCheckMs)
+	if cores {
+		b.WriteString("(set-option :produce-unsat-cores true)\n")
+	}
+	for _, d := range vc.decls {
+		b.WriteString(d)
+		b.WriteByte('\n')
+	}
+	var assume []string
+	flagID := map[string]string{}
+	var ids []string
+	for id := range vc.eng.candEnable {
+		ids = append(ids, id)
+	}
+	sort.Strings(ids)
+	for _, id := range ids {
+		en := vc.eng.candEnable[id]
+		if !vc.declared[en.S] {
+			continue
+		}
+		if enabled[id] {
+			if cores {
+				assume = append(assume, en.S)
+				flagID[en.S] = id
+			} else {
+				fmt.Fprintf(&b, "(assert %s)\n", en.S)
+			}
+		} else {
+			fmt.Fprintf(&b, "(assert (not %s))\n", en.S)
+		}
+	}
+	n := 0
+	for _, o := range sorted {
+		for ; n < o.NFacts; n++ {
+			b.WriteString("(assert ")
+			b.WriteString(vc.facts[n].S)
+			b.WriteString(")\n")
+		}
+		b.WriteString("(push 1)\n(assert (not (=> ")
+		b.WriteString(o.Reach.S)
+		b.WriteString(" ")
+		b.WriteString(o.Goal.S)
+		if cores {
+			b.WriteString(")))\n(check-sat-assuming (")
+			b.WriteString(strings.Join(assume, " "))
+			b.WriteString("))\n(get-unsat-core)\n(pop 1)\n")
+		} else {
+			b.WriteString(")))\n(check-sat)\n(pop 1)\n")
+		}
+	}
+	file := filepath.Join(opts.Dir, fmt.Sprintf("inc-%d.smt2", atomic.AddInt64(&fileSeq, 1)))
+	if err := os.WriteFile(file, b.Bytes(), 0o644); err != nil {
+		return res, coreOf
+	}
+	defer os.Remove(file)
+	total := len(sorted)*perCheckMs/1000 + 20
+	ctx, cancel := context.WithTimeout(context.Background(), time.Duration(total)*time.Second)
+	defer cancel()
+	cmd := exec.CommandContext(ctx, "z3-new", "smt.mbqi=false", "smt.auto_config=false", file)
+	var buf bytes.Buffer
+	cmd.Stdout = &buf
+	cmd.Stderr = &buf
+	t0 := time.Now()
+	_ = cmd.Run()
+	secs := time.Since(t0).Seconds()
+	stats.mu.Lock()
+	stats.Secs["z3-5.1.0-ematch(incremental)"] += secs
+	stats.Queries += len(sorted)
+	stats.mu.Unlock()
+	var answers []string
+	var coreLines []string
+	for _, line := range strings.Split(buf.String(), "\n") {
+		line = strings.TrimSpace(line)
+		switch line {
+		case "sat", "unsat", "unknown", "timeout":
+			answers = append(answers, line)
+			coreLines = append(coreLines, "")
+		default:
+			if cores && len(answers) > 0 && coreLines[len(coreLines)-1] == "" {
+				// the line after an answer: the core, or the error of get-unsat-core
+				if strings.HasPrefix(line, "(error") {
+					coreLines[len(coreLines)-1] = "-"
+					continue
+				}
+				if strings.HasPrefix(line, "(") {
+					coreLines[len(coreLines)-1] = line
+					continue
+				}
+			}
+			if strings.HasPrefix(line, "(error") {
+				// an error in a fact poisons everything after it: be conservative
+				answers = append(answers, "error:"+line)
+				coreLines = append(coreLines, "-")
+			}
+		}
+	}
+	okCount := 0
+	for _, a := range answers {
+		if !strings.HasPrefix(a, "error:") {
+			okCount++
+		}
+	}
+	if okCount != len(sorted) || okCount != len(answers) {
+		// fall back to one-by-one solving
+		return res, coreOf
+	}
+	for i, o := range sorted {
+		res[o] = answers[i]
+		if cores && answers[i] == "unsat" {
+			for _, tok := range splitCore(coreLines[i]) {
+				if id, ok := flagID[tok]; ok {
+					coreOf[o] = append(coreOf[o], id)
+				}
+			}
+		}
+	}
+	return res, coreOf
+}
+
+// splitCore splits "(a |b c| d)" into symbols.
+func splitCore(s string) []string {
+	s = strings.TrimSpace(s)
+	s = strings.TrimPrefix(s, "(")
+	s = strings.TrimSuffix(s, ")")
+	var out []string
+	for len(s) > 0 {
+		s = strings.TrimLeft(s, " ")
+		if s == "" {
+			break
+		}
+		if s[0] == '|' {
+			j := strings.IndexByte(s[1:], '|')
+			if j < 0 {
+				break
+			}
+			out = append(out, s[:j+2])
+			s = s[j+2:]
+		} else {
+			j := strings.IndexByte(s, ' ')
+			if j < 0 {
+				out = append(out, s)
+				break
+			}
+			out = append(out, s[:j])
+			s = s[j:]
+		}
+	}
+	return out
+}
+
 // solveAll runs Houdini on CAND obligations, then decides the rest.
 func solveAll(vcs []*VC, opts SolveOpts, stats *SolverStats) (cands, kept int) {
 	if opts.Workers == 0 {
 		opts.Workers = runtime.NumCPU()
 	}
+	if len(vcs) == 0 {
+		return
+	}
+	eng := vcs[0].eng
 	type job struct {
 		vc *VC
 		o  *Obl
@@ -309,65 +491,175 @@ func solveAll(vcs []*VC, opts SolveOpts, stats *SolverStats) (cands, kept int) {
 		close(ch)
 		wg.Wait()
 	}
-	run := func(jobs []job, enabled map[string]bool) { runWith(jobs, enabled, opts) }
-	enabled := map[string]bool{}
-	for _, vc := range vcs {
-		for _, o := range vc.obls {
-			if o.Class == "CAND" {
-				enabled[o.Extra["cand"]] = true
+	// parallel over VCs: incremental stage
+	allCores := map[*Obl][]string{}
+	incAll := func(sel func(o *Obl) bool, enabled map[string]bool, ms int, cores bool) map[*Obl]string {
+		out := map[*Obl]string{}
+		var mu sync.Mutex
+		var wg sync.WaitGroup
+		sem := make(chan struct{}, opts.Workers)
+		for _, vc := range vcs {
+			var obls []*Obl
+			for _, o := range vc.obls {
+				if sel(o) {
+					obls = append(obls, o)
+				}
+			}
+			if len(obls) == 0 {
+				continue
+			}
+			// split big batches so that all cores are used
+			chunk := (len(obls) + 11) / 12
+			if chunk < 12 {
+				chunk = 12
+			}
+			for i := 0; i < len(obls); i += chunk {
+				j := i + chunk
+				if j > len(obls) {
+					j = len(obls)
+				}
+				part := obls[i:j]
+				vc := vc
+				wg.Add(1)
+				sem <- struct{}{}
+				go func() {
+					defer wg.Done()
+					defer func() { <-sem }()
+					r, cs := vc.incrementalCores(part, enabled, ms, opts, stats, cores)
+					mu.Lock()
+					for k, v := range r {
+						out[k] = v
+					}
+					for k, v := range cs {
+						allCores[k] = v
+					}
+					mu.Unlock()
+				}()
 			}
 		}
-		// candidates whose checks were all trivially true
-		for id, en := range vc.eng.candEnable {
+		wg.Wait()
+		return out
+	}
+	// candidate states: active (enabled), inactive (refinement of a live group), dead
+	enabled := map[string]bool{}
+	known := map[string]bool{}
+	for _, vc := range vcs {
+		for id, en := range eng.candEnable {
 			if vc.declared[en.S] {
-				enabled[id] = true
+				known[id] = true
+				enabled[id] = eng.candParent[id] == ""
 			}
 		}
 	}
-	cands = len(enabled)
+	cands = len(known)
 	hopts := opts
 	hopts.Houdini = true
 	hopts.AllSolvers = false
-	for round := 0; round < 20; round++ {
+	dead := map[string]bool{}
+	tlog := func(format string, a ...any) {
+		if os.Getenv("GOVC_TIMING") != "" {
+			fmt.Fprintf(os.Stderr, "[timing] "+format+"\n", a...)
+		}
+	}
+	tStart := time.Now()
+	proved := map[*Obl]bool{} // proved in an earlier round with a core that is still intact
+	for round := 0; round < 60; round++ {
+		tR := time.Now()
+		need := func(o *Obl) bool {
+			if o.Class != "CAND" || !enabled[o.Extra["cand"]] {
+				return false
+			}
+			if !proved[o] {
+				return true
+			}
+			for _, id := range allCores[o] {
+				if !enabled[id] {
+					return true
+				}
+			}
+			return false
+		}
+		var needed []*Obl
+		for _, vc := range vcs {
+			for _, o := range vc.obls {
+				if need(o) {
+					needed = append(needed, o)
+				}
+			}
+		}
+		isNeeded := map[*Obl]bool{}
+		for _, o := range needed {
+			isNeeded[o] = true
+		}
+		res := incAll(func(o *Obl) bool { return isNeeded[o] }, enabled, 400, true)
+		// obligations the incremental run could not answer: one by one
 		var jobs []job
 		for _, vc := range vcs {
 			for _, o := range vc.obls {
-				if o.Class == "CAND" && enabled[o.Extra["cand"]] {
-					jobs = append(jobs, job{vc, o})
+				if isNeeded[o] {
+					if st, ok := res[o]; ok {
+						o.Status, o.Backend = st, "z3-5.1.0-ematch(incremental)"
+						proved[o] = st == "unsat"
+					} else {
+						proved[o] = false
+						delete(allCores, o)
+						jobs = append(jobs, job{vc, o})
+					}
 				}
 			}
 		}
-		if len(jobs) == 0 {
-			break
-		}
+		tI := time.Since(tR).Seconds()
 		runWith(jobs, enabled, hopts)
-		removed := 0
-		for _, j := range jobs {
-			if j.o.Status != "unsat" {
-				if enabled[j.o.Extra["cand"]] {
-					enabled[j.o.Extra["cand"]] = false
-					removed++
+		changed := 0
+		for _, vc := range vcs {
+			for _, o := range vc.obls {
+				id := o.Extra["cand"]
+				if o.Class == "CAND" && enabled[id] && o.Status != "unsat" {
+					enabled[id] = false
+					dead[id] = true
+					changed++
 				}
 			}
 		}
-		if removed == 0 {
+		// a dead group hands over to its member candidates
+		for id := range known {
+			if p := eng.candParent[id]; p != "" && dead[p] && !dead[id] && !enabled[id] {
+				enabled[id] = true
+				changed++
+			}
+		}
+		tlog("houdini round %d: incremental %.1fs (%d answered), one-by-one %d jobs, total %.1fs, changed %d", round, tI, len(res), len(jobs), time.Since(tR).Seconds(), changed)
+		if changed == 0 {
 			break
 		}
 	}
+	tlog("houdini total %.1fs", time.Since(tStart).Seconds())
 	for _, v := range enabled {
 		if v {
 			kept++
 		}
 	}
+	// final obligations: incremental first, the rest through the portfolio
+	res := incAll(func(o *Obl) bool { return o.Class != "CAND" && !(o.Extra != nil && o.Extra["expect"] == "sat") }, enabled, 3000, false)
 	var jobs []job
 	for _, vc := range vcs {
 		for _, o := range vc.obls {
-			if o.Class != "CAND" {
-				jobs = append(jobs, job{vc, o})
+			if o.Class == "CAND" {
+				continue
 			}
+			if st, ok := res[o]; ok && st == "unsat" {
+				o.Status, o.Backend = "unsat", "z3-5.1.0-ematch(incremental)"
+				stats.mu.Lock()
+				stats.Wins[o.Backend]++
+				stats.mu.Unlock()
+				continue
+			}
+			jobs = append(jobs, job{vc, o})
 		}
 	}
-	run(jobs, enabled)
+	tF := time.Now()
+	runWith(jobs, enabled, opts)
+	tlog("final: %d by incremental, %d one-by-one in %.1fs", len(res), len(jobs), time.Since(tF).Seconds())
 	for _, vc := range vcs {
 		vc.enabled = enabled
 	}
